@@ -371,7 +371,7 @@ fn get_typed_n(q: &Qualifiers, n: usize) -> Result<Option<String>, String> {
         2 => q.get_typed::<well_known::maven::Type>().map(|x| x.to_string()),
         3 => q.get_typed::<well_known::DownloadUrl>().map(|x| x.to_string()),
         4 => q.get_typed::<well_known::FileName>().map(|x| x.to_string()),
-        5 => q.get_typed::<well_known::RepositoryUrl>().map(|x| x.to_string()),
+        5 => q.get_typed::<well_known::RepositoryUrl>().map(|x| { let r: &str = x.as_ref(); let d: &str = &x; if r == d { x.to_string() } else { "!asref".to_string() } }),
         6 => q.get_typed::<well_known::VcsUrl>().map(|x| x.to_string()),
         7 => q.get_typed::<CustomArch>().map(|x| x.to_string()),
         8 => q.get_typed::<CustomRepoUrl>().map(|x| x.to_string()),
@@ -530,7 +530,16 @@ fn quals_step(q: &mut Qualifiers, a: &[&str]) -> Result<String, String> {
             q.clear();
             ".".to_string()
         },
-        "len" => format!("{}{}", q.len(), if q.is_empty() { "e" } else { "" }),
+        "len" => {
+            // capacity bookkeeping never changes the content
+            let before = show_quals(q);
+            q.reserve(3);
+            let ok1 = q.capacity() >= q.len() + 3;
+            q.reserve_exact(5);
+            let ok2 = q.capacity() >= q.len() + 5;
+            let same = show_quals(q) == before;
+            format!("{}{}{}", q.len(), if q.is_empty() { "e" } else { "" }, if ok1 && ok2 && same { "" } else { "!cap" })
+        },
         "iter" => {
             let mut o = String::from("[");
             let mut bad = false;
